@@ -166,9 +166,38 @@ def threshold_edges(body):
     return out
 
 
+def r5(run):
+    sv = coroutine_of(run, HANDLER + "::serve")
+    if sv is None:
+        run.missing(HANDLER + "::serve|body", "Handler::serve not found")
+        return
+    unreg = [a for a in F.appends_in(sv) if a.has_suffix(".unregistered")]
+    ubbs = [a.call.bb for a in unreg]
+    recvs = q.live_calls(sv, C.MPSC_RECV)
+    pf = [c for c in sv.calls() if c.bb in sv.live_blocks() and c.fn.endswith("Handler::process_frame")]
+    for suffix, what in ((".register", "a later `<name>.register` (replacement)"), (".unregister", "a later `<name>.unregister`")):
+        edges = F.suffix_tests(sv, suffix)
+        # one occurrence of the test must lead, on every path, to the announcement before anything else happens
+        stopping = []
+        for e in edges:
+            reach = sv.reachable_blocks([e[1]], removed_blocks=ubbs)
+            if not any(c.bb in reach for c in recvs + pf) and not any(r in reach for r in sv.return_blocks()) and any(
+                    u in sv.reachable_blocks([e[1]]) for u in ubbs):
+                stopping.append(e)
+        run.ob(HANDLER + "::serve|stops-on|%s" % suffix, len(stopping) >= 1, sv.sp,
+               "%s of its own topic stops this instance: one `topic == <name>%s` test leads on every path to the `.unregistered` announcement (%d of %d test edges)" % (
+                   what, suffix, len(stopping), len(edges)), reason="old-instance-keeps-running")
+    # the tests compare against this handler's own topic
+    for e in F.suffix_tests(sv, ".register")[:1]:
+        si = sv.switch_info(e[0])
+        run.ob(HANDLER + "::serve|stop-test-own-topic", any(y[0] == "field" and y[2] == "topic" and any(z[0] == "field" and z[1][0] == "env" and z[2] == "self" for z in walk(y)) for y in walk(si["cond"])),
+               sv.blocks[e[0]]["term"]["sp"], "the stop test is built from self.topic")
+
+
 RULES = [
     ("R-C16-1", "`.registered` is appended after the subscription completed in the same task; the serve task gets that receiver", r1),
     ("R-C16-2", "every exit of Handler::serve passes exactly one stamped `.unregistered`; nothing is processed afterwards", r2),
     ("R-C16-3", "start_handler: construction error => one `.unregistered` with error; success => spawn", r3),
     ("R-C16-4", "the dispatcher starts a handler for every live `.register` frame", r4),
+    ("R-C16-5", "a later .register (replacement) or .unregister of its own name stops the running instance", r5),
 ]
